@@ -152,6 +152,7 @@ func (p *P) runOne(r *core.Result, src *tape.Source, trace bool) {
 	} else {
 		s.target = 10 + src.Intn(141, "c18.len")
 	}
+	s.wantHuge = s.sweep == nil && src.Intn(300, "c18.hugedoc") == 299
 	if src.Intn(25, "c18.wfail") == 24 {
 		s.failWrite = 1 + src.Intn(40, "c18.wfailat")
 	}
@@ -273,6 +274,13 @@ func (s *sim) Read(p []byte) (int, error) {
 	n := len(s.queue)
 	if n > len(p) {
 		n = len(p)
+	}
+	if len(s.queue) > 1<<20 {
+		// a multi-megabyte frame: hand it over in large pieces (byte-wise chunking
+		// of 5 MiB would only burn time)
+		copy(p, s.queue[:n])
+		s.queue = s.queue[n:]
+		return n, nil
 	}
 	switch s.src.Intn(6, "c18.chunk") {
 	case 1:
